@@ -15,7 +15,9 @@ man = {
  "hooks": {"guard": "VOPY_VERIF", "enable": "no in-repo hooks are needed: observation goes through public attributes and seams (DESIGN 3); the guard name is reserved",
            "baseline_off_cmd": BASELINE, "source_commits": [], "add_only": True},
  "engines": [{"name": "tlc", "path": "/opt/veriftools/tla/tla2tools.jar", "serves_properties": sorted(CHECKS),
-              "kind_free_text": "explicit-state model checker for the TLA+ modules in /verif/spec; tables via -dump, behaviours via -simulate, trace validation via Json/IOUtils"}],
+              "kind_free_text": "explicit-state model checker for the TLA+ modules in /verif/spec; tables via -dump, behaviours via -simulate, trace validation via Json/IOUtils"},
+             {"name": "tlapm", "path": "/opt/veriftools/tlapm/bin/tlapm", "serves_properties": ["C01", "C05", "C06"],
+              "kind_free_text": "TLA+ proof system: unbounded theorems about the same specification operators (spec/proofs/VOAlgoProofs.tla: set-level run invariants, TopQ lemmas; spec/proofs/VOAccuracyProofs.tla: relation-level accuracy of the PaVeBa family, Auer, VOGP / eps-PAL for every design set); re-proved from scratch inside the checks"}],
  "checks": [], "notes": NOTES, "not_applicable": NOT_APPLICABLE}
 for pid in sorted(CHECKS):
     c = CHECKS[pid]
